@@ -47,7 +47,7 @@ CFG = {
             "two-counter byte generator gen_bytes, and every observed byte string is compared NOT byte for byte but through a digest "
             "computed on both sides: length, first and last eight bytes, sum of the bytes, sum of the prefix sums). Private instances in parallel (class parallel, judged as CLarge cases): 8 goroutines released together by a "
             "spin barrier, each with its own bytes (recognisable generator parameters per goroutine, strings / blocks from a few bytes to "
-            "70 KiB between fields of every fixed-width type), its own BufferX and its own ReaderX over its own source, decode their stream "
+            "45 KiB between fields of every fixed-width type), its own BufferX and its own ReaderX over its own source, decode their stream "
             "120 times (400 in the thorough tier); the first observation of each goroutine and every observation that differs from it (at "
             "most 3 more per goroutine; the comparison in Go only selects what is emitted) are judged in Coq against the model's decode of "
             "that goroutine's own bytes - the only admissible outcome under every schedule, since the instances share nothing. Non-trivial: round = at least one write; trunc = cut < total; hist/rewrite = always; arbitrary bytes = non-empty "
